@@ -45,6 +45,7 @@ theorem reprRoundSum_contract (B : Nat) (hB : 2 ≤ B) (m : Mode) (c : Coarse) (
   obtain ⟨hdpos, hslo, hshi⟩ := digitsI_spec B hB s hs0
   have hDk := natpow_pos B hB0 lk
   unfold reprRoundSum
+  try simp only [shlDigits_eq, shrDigits_eq]
   simp only [hp0, if_false]
   generalize hrnd : p + (if isSub = true then 1 else 0) = rndP at *
   have hrp : p ≤ rndP := by rw [← hrnd]; omega
